@@ -100,6 +100,10 @@ def gen_strings(rng, tier):
         if ch == "\x00":
             continue
         out += [ch, ch + ch, "1" + ch + "2", "a" + ch + "b", ch + "1", "1" + ch, "(1" + ch + ")", "{a" + ch + "b}", "1 m" + ch + "s", "1" + ch + "+" + ch + "2"]
+    # nesting depth: calls, parentheses, braces and mixtures, far deeper than any random string gets
+    for n in list(range(1, 12)) + [16, 31, 32, 33, 63, 64, 65, 66, 100, 127, 128, 129, 200, 300]:
+        out += ["f(" * n + "1" + ")" * n, "(" * n + "1" + ")" * n, "max(2, " * n + "1" + ")" * n, "f((" * n + "1" + "))" * n,
+                "(" * n, ")" * n, "f(" * n, "round(" * n + "1.5" + ", 1)" * n, "1" + " + (2" * n + ")" * n, "{" * n + "a" + "}" * n]
     nq = 800 if tier == "quick" else 6000
     for _ in range(nq):
         out.append(random_query(rng))
